@@ -67,6 +67,45 @@ pub fn strip_unknown(b: &[u8]) -> Vec<u8> {
 	out
 }
 
+/// Unknown events too large for one event, cut into Message Splitter blocks the way Gecko codes are
+/// (700 bytes = two blocks, 512 bytes = one full block, 1 byte), wrapped code 0x3E / 0xFE, inserted after
+/// Game Start, after the Gecko list, in the middle and at the end of every quick base.
+pub fn wrapped_unknown_docs() -> Vec<(Vec<u8>, String)> {
+	let mut wrapped_jobs: Vec<(Vec<u8>, String)> = vec![];
+	for a in bases(true) {
+		let doc = record(&a).doc;
+		let nb = doc.events.len();
+		let after_gecko = doc.events.iter().rposition(|e| e.code == 0x10).map_or(1, |i| i + 1);
+		for (code, total) in [(0x3Eu8, 700usize), (0xFE, 512), (0x3E, 1)] {
+			for at in [1usize, after_gecko, (nb + 1) / 2, nb] {
+				wrapped_jobs.push((with_wrapped_unknown(&doc, code, total, at), format!("{} + unknown event {:#04x} of {} bytes in splitter blocks at boundary {}", a.describe(), code, total, at)));
+			}
+		}
+	}
+	wrapped_jobs
+}
+
+pub fn with_wrapped_unknown(doc: &Doc, code: u8, total: usize, at: usize) -> Vec<u8> {
+	let mut d = doc.clone();
+	if d.size_of(0x10).is_none() {
+		d.table.push((0x10, 516));
+	}
+	if d.size_of(code).is_none() {
+		d.table.push((code, total as u16));
+	}
+	let data: Vec<u8> = (0..total).map(|i| fill_byte(Fill::B, 0x71, i)).collect();
+	let chunks: Vec<&[u8]> = data.chunks(512).collect();
+	for (ci, ch) in chunks.iter().enumerate() {
+		let mut pl = ch.to_vec();
+		pl.resize(512, 0xEE);
+		pl.extend_from_slice(&(ch.len() as u16).to_be_bytes());
+		pl.push(code);
+		pl.push((ci + 1 == chunks.len()) as u8);
+		d.events.insert(at.max(1) + ci, Ev { code: 0x10, payload: pl, tag: Tag::Unknown });
+	}
+	d.assemble()
+}
+
 pub fn o_unknown(input: &[u8], p: &P) -> Out {
 	let rg = domain(input, "C08");
 	let mut out = out_from(&rg);
@@ -84,6 +123,11 @@ pub fn o_unknown(input: &[u8], p: &P) -> Out {
 			return Err(("QUIRK".to_string(), format!("the doubled Game End is no longer recognised (quirks {:?} instead of {:?}) when an unknown event follows the first Game End; the game would be written back with a single Game End", g.quirks, g0.quirks)));
 		}
 		compare_frames(&g.frames, &rg, rg.rows.len(), true).map_err(|(k, m)| e(&format!("model-{}", k), m))?;
+		// the debug option (every event dumped to a directory, unknown ones included) changes nothing
+		if input.len() < 6000 && matches!(p.class, "pair" | "triple") {
+			let gd = read_slp_debug(input, false, false).map_err(|f| e(&format!("read-failed-with-debug:{}", f.key()), format!("reading with the debug option failed with {} unknown events present: {}", rg.unknown_events, f.describe())))?;
+			games_equal(&g, &gd, false).map_err(|m| e("game-differs-with-debug", m))?;
+		}
 		// the skip_frames path walks over the unknown events as raw bytes: same start / end / metadata
 		if g0.end.is_some() && rg.junk_after_end == 0 {
 			let s0 = read_slp(&base, true, true).map_err(|f| e("base-skip-read-failed", f.describe()))?;
@@ -288,7 +332,7 @@ pub fn with_unknown(doc: &Doc, ins: &[(usize, usize)]) -> Vec<u8> {
 
 pub fn run() {
 	let cx = ctx();
-	cx.note("rule", json!("(a) replays of every framing regime (with gecko blocks where they exist) x unknown events (code,size) in {(0x3E,1),(0x40,2),(0x11,600),(0xFF,4),(0x00,7),(0x7E,65535)} declared in the payload table and inserted at every event boundary after Game Start (between splitter blocks, inside frames, before/after Game End): all single insertions, all pairs (multisets; same or different boundary), and a run of three; plus EVERY one of the 246 undefined codes singly at three boundaries; plus unknown events cut into Message Splitter blocks (1, 512, 700 bytes) at four boundaries; bases with one, two and no Game End; the game must equal the one read from the same replay with the unknown events removed, and the model. (b) versions {3.17, 3.255, 4.0, 255.255} with 3.16 content and +1/+3/+17 trailing bytes on each known event kind alone and on all together (Game Start and Game End included), table updated: every known field equals the un-extended parse; start.bytes/end.bytes carry the extra bytes. Non-trivial = contains at least one unknown event / extended payload"));
+	cx.note("rule", json!("(a) replays of every framing regime (with gecko blocks where they exist) x unknown events (code,size) in {(0x3E,1),(0x40,2),(0x11,600),(0xFF,4),(0x00,7),(0x7E,65535)} declared in the payload table and inserted at every event boundary after Game Start (between splitter blocks, inside frames, before/after Game End): all single insertions, all pairs (multisets; same or different boundary), and a run of three; plus EVERY one of the 246 undefined codes singly at three boundaries; plus unknown events cut into Message Splitter blocks (1, 512, 700 bytes) at four boundaries; bases with one, two and no Game End; payload tables declaring up to 74 undefined codes; the debug option next to unknown events; the game must equal the one read from the same replay with the unknown events removed, and the model. (b) versions {3.17, 3.255, 4.0, 255.255} with 3.16 content and +1/+3/+17 trailing bytes on each known event kind alone and on all together (Game Start and Game End included), table updated: every known field equals the un-extended parse; start.bytes/end.bytes carry the extra bytes. Non-trivial = contains at least one unknown event / extended payload"));
 	cx.note("exhaustive", json!(true));
 	cx.note("assumptions", json!(["unknown = an event code outside the 10 codes the format defines up to 3.16"]));
 	let mut jobs: Vec<(Arc<Doc>, String, Vec<(usize, usize)>)> = vec![];
@@ -349,6 +393,35 @@ pub fn run() {
 			}
 		}
 	}
+	// payload tables with many entries: 33 / 43 / 60 / 74 undefined codes declared (a table can hold 84 entries),
+	// the first three of them occurring once each
+	let mut table_jobs: Vec<(Vec<u8>, String)> = vec![];
+	for a in bases(true).into_iter().take(3) {
+		let doc = record(&a).doc;
+		for n in [33usize, 43, 60, 74] {
+			let mut d = doc.clone();
+			let mut added = vec![];
+			let mut code = 0x40u8;
+			while added.len() < n {
+				if d.size_of(code).is_none() && !matches!(code, 0x10 | 0x35..=0x3D) {
+					d.table.push((code, 1 + (added.len() % 5) as u16));
+					added.push(code);
+				}
+				code = code.wrapping_add(1);
+			}
+			let nb = d.events.len();
+			for (k, c) in added.iter().take(3).enumerate() {
+				let size = d.size_of(*c).unwrap() as usize;
+				d.events.insert(nb - k.min(nb - 1), Ev { code: *c, payload: vec![0xAB; size], tag: Tag::Unknown });
+			}
+			table_jobs.push((d.assemble(), format!("{} + {} undefined codes in the payload table", a.describe(), n)));
+		}
+	}
+	par_each(table_jobs.into_iter(), |(bytes, label), local| {
+		let bytes = Arc::new(bytes);
+		let p = P { class: "big-table", ..Default::default() };
+		eval_case("unknown_events", o_unknown, &bytes, &p, || label, local);
+	});
 	cx.note("all_unknown_codes_cases", json!(code_jobs.len()));
 	par_each(code_jobs.into_iter(), |(doc, label, code, size, at), local| {
 		let mut d = (*doc).clone();
@@ -360,38 +433,7 @@ pub fn run() {
 		let p = P { class: "any-code", ..Default::default() };
 		eval_case("unknown_events", o_unknown, &bytes, &p, || format!("{} + unknown event code {:#04x} ({} bytes) at boundary {}", label, code, size, at), local);
 	});
-	// an unknown event too large for one event arrives cut into Message Splitter blocks, the way Gecko codes do
-	// (700 bytes = two blocks, 512 bytes = one full block), wrapped code 0x3E / 0xFE
-	let mut wrapped_jobs: Vec<(Vec<u8>, String)> = vec![];
-	for a in bases(true) {
-		let doc = record(&a).doc;
-		let nb = doc.events.len();
-		let after_gecko = doc.events.iter().rposition(|e| e.code == 0x10).map_or(1, |i| i + 1);
-		for (code, total) in [(0x3Eu8, 700usize), (0xFE, 512), (0x3E, 1)] {
-			for at in [1usize, after_gecko, (nb + 1) / 2, nb] {
-				let mut d = doc.clone();
-				if d.size_of(0x10).is_none() {
-					d.table.push((0x10, 516));
-				}
-				d.table.push((code, total as u16));
-				let data: Vec<u8> = (0..total).map(|i| fill_byte(Fill::B, 0x71, i)).collect();
-				let chunks: Vec<&[u8]> = data.chunks(512).collect();
-				let mut evs = vec![];
-				for (ci, ch) in chunks.iter().enumerate() {
-					let mut pl = ch.to_vec();
-					pl.resize(512, 0xEE);
-					pl.extend_from_slice(&(ch.len() as u16).to_be_bytes());
-					pl.push(code);
-					pl.push((ci + 1 == chunks.len()) as u8);
-					evs.push(Ev { code: 0x10, payload: pl, tag: Tag::Unknown });
-				}
-				for (k, ev) in evs.into_iter().enumerate() {
-					d.events.insert(at.max(1) + k, ev);
-				}
-				wrapped_jobs.push((d.assemble(), format!("{} + unknown event {:#04x} of {} bytes in splitter blocks at boundary {}", a.describe(), code, total, at)));
-			}
-		}
-	}
+	let wrapped_jobs = wrapped_unknown_docs();
 	cx.note("splitter_wrapped_unknown_cases", json!(wrapped_jobs.len()));
 	par_each(wrapped_jobs.into_iter(), |(bytes, label), local| {
 		let bytes = Arc::new(bytes);
